@@ -921,6 +921,16 @@ def containment(ctx, report):
             continue
         cn = ctx.canon.canon(c, 'parse')
         cons = c.resolve('_parse').construct
+        from ..codecs import EVALUATED_CODECS
+        if cname in EVALUATED_CODECS and lenkey and not [e for e in cn.flat if e.key == lenkey]:
+            # the declared length is no longer a field of its own (one header word split arithmetically): the unit is
+            # evaluated against its wire format - length reported, trailing bytes ignored, every prefix short (sa/codecs.py)
+            ev = EVALUATED_CODECS[cname](ctx)
+            if ev['evaluated']:
+                report.count('C03.R5', ev['runs'])
+                if 'parse' in ev['problems']:
+                    report.add('C03.R5', cons + '@codec', ev['problems']['parse'])
+                continue
         ms = min_size(cn.elements, ctx.canon)
         if ms < 1:
             report.add('C03.R5', cons + '@empty', 'the layout accepts an empty input: a frame would consume 0 bytes')
